@@ -867,6 +867,36 @@ func (w *World) oracleCodes() {
 					s.Violate("C16/retry-class-mismatch/queue-report", "permanent failure reported with Status %s: %q", x.Status, x.Diagnostic)
 				}
 			}
+			// class vs treatment, for every kind of error value: look at the
+			// recipient's last attempt before this report
+			if rr.m == nil || len(x.Status) == 0 {
+				continue
+			}
+			for _, r := range rr.m.Rcpts {
+				if reportName(rr.m, r) != canonAddr(x.Addr) {
+					continue
+				}
+				var last *rcptAttempt
+				for _, d := range w.txsOf(rr.m) {
+					if d.Step > rr.tx.Step {
+						break
+					}
+					a := attempt(d, r)
+					if a.presented || !d.Started {
+						aa := a
+						last = &aa
+					}
+				}
+				if last == nil || len(last.set) == 0 {
+					continue
+				}
+				if !anyPerm(last.set) && x.Status[:1] != "4" {
+					s.Violate("C16/retry-class-mismatch/queue-report", "%s failed with retriable errors only (%v) and was retried as such, yet the report says Status %s (%q)", x.Addr, last.set, x.Status, x.Diagnostic)
+				}
+				if !anyRetriable(last.set) && x.Status[:1] != "5" {
+					s.Violate("C16/retry-class-mismatch/queue-report", "%s failed permanently (%v), yet the report says Status %s (%q)", x.Addr, last.set, x.Status, x.Diagnostic)
+				}
+			}
 		}
 	}
 	// retried <=> temporary: the retry discipline of C01 with the nested error
